@@ -320,6 +320,14 @@ Definition apply (s : uf) (o : op) : uf :=
 
 Definition reach (h : list op) : uf := fold_left apply h uf_empty.
 
+(* unionfind.py: __init__(elements): the empty structure, then `self.add(elt)` for each element of the
+   container in iteration order (duplicates included; None stands for the empty container). Gen.v carries
+   the constructor extracted from the source (uf_new, uf_init); Proofs_UF.v proves it equal to this one. *)
+Definition init_from (l : list Z) : uf := fold_left add l uf_empty.
+
+(* the state after a constructor call on the elements l followed by any list of operations *)
+Definition reach_from (l : list Z) (h : list op) : uf := fold_left apply h (init_from l).
+
 (* ------------------------------------------------------------------ priority queue *)
 (* An item is (priority, payload). PriorityItem.__lt__ compares priorities only: Gen.v supplies the
    comparator extracted from the source; the heap algorithm is heapq's (Lib/heapq.py). *)
